@@ -5,6 +5,7 @@
 import datetime
 import itertools
 import json
+import os
 import warnings
 from abc import ABCMeta
 from enum import IntEnum
@@ -32,6 +33,14 @@ from .base_team import BaseTeam
 from .base_worker import BaseWorker, BaseWorkerState
 from .base_workflow import BaseWorkflow
 from .base_workplace import BaseWorkplace
+
+
+def _verif_notify(project, phase):
+    """Verification hook (no-op unless PDESY_VERIF=1 and an observer is installed)."""
+    if os.environ.get("PDESY_VERIF") == "1":
+        observer = getattr(project, "_verif_observer", None)
+        if observer is not None:
+            observer(project, phase)
 
 
 class SimulationMode(IntEnum):
@@ -296,6 +305,7 @@ class BaseProject(object, metaclass=ABCMeta):
         while True:
             # 0. Update status
             self.__update()
+            _verif_notify(self, "updated")
 
             # 1. Check finished or not
             state_list = list(map(lambda task: task.state, self.workflow.task_list))
@@ -332,6 +342,7 @@ class BaseProject(object, metaclass=ABCMeta):
             # Update state of task newly allocated workers and facilities (READY -> WORKING)
             self.workflow.check_state(self.time, BaseTaskState.WORKING)
             self.product.check_state()  # product should be checked after checking workflow state
+            _verif_notify(self, "allocated")
 
             # 3. Pay cost to all workers and facilities in this time
             if working:
@@ -348,9 +359,11 @@ class BaseProject(object, metaclass=ABCMeta):
                     self.__perform()
             elif perform_auto_task_while_absence_time:
                 self.workflow.perform(self.time, only_auto_task=True)
+            _verif_notify(self, "performed")
 
             # 5. Record
             self.__record(working=working)
+            _verif_notify(self, "recorded")
 
             # 6. Update time
             self.time = self.time + unit_time
